@@ -76,11 +76,11 @@ theorem importsOKC_folds {chain : List TagKey} {c : Component} (h : importsOKC c
     importsOKF chain c.folds = true := by
   cases c; simpa [importsOKC, Component.folds] using h
 
-theorem fieldRefEq_eq {a b : FieldRef} (h : fieldRefEq a b = true) : a = b := by
-  cases a <;> cases b <;> simp_all [fieldRefEq]
+theorem fieldRefEq_eq {a b : FieldRef} (h : IRWF.fieldRefEq a b = true) : a = b := by
+  cases a <;> cases b <;> simp_all [IRWF.fieldRefEq]
 
-theorem mem_of_refMem {r : FieldRef} {l : List FieldRef} (h : refMem r l = true) : r ∈ l := by
-  simp only [refMem, List.any_eq_true] at h
+theorem mem_of_refMem {r : FieldRef} {l : List FieldRef} (h : IRWF.refMem r l = true) : r ∈ l := by
+  simp only [IRWF.refMem, List.any_eq_true] at h
   obtain ⟨x, hx, hxe⟩ := h
   rw [fieldRefEq_eq hxe]; exact hx
 
